@@ -176,6 +176,29 @@ def check(run):
                     continue
                 run.gap_case("unary-and-scalar", (name, s1, lead), name)
                 expect_grid(f"Grid.{name}", inp, r, sp, want, (g1,))
+            # the same scalar and unary operations written into ANOTHER Grid (out=h, h is not the operand): h takes the result's spin weight and
+            # values, is returned, and neither h nor the result ends up holding the operand's metadata dictionary
+            for name, uf, args, sp, want in (("multiply-scalar", np.multiply, (2.5,), s1, a1 * 2.5), ("divide-scalar", np.divide, (4.0,), s1, a1 / 4.0),
+                                             ("true_divide-scalar", np.true_divide, (1 - 2j,), s1, a1 / (1 - 2j)), ("conjugate", np.conjugate, (), -s1, np.conjugate(a1)),
+                                             ("negative", np.negative, (), s1, -a1), ("reciprocal", np.reciprocal, (), -s1, np.reciprocal(a1)),
+                                             ("square", np.square, (), 2 * s1, np.square(a1)), ("power-int", np.power, (2,), 2 * s1, np.power(a1, 2))):
+                nt1, np1 = a1.shape[-2:]
+                if min(nt1, np1) < 2 * abs(sp) + 1:
+                    continue
+                site = f"Grid.{name}[out=other-grid]"
+                try:
+                    h = Grid(np.zeros(a1.shape, dtype=complex), spin_weight=0, other_note=["h"])
+                    r = uf(g1, *args, out=h)
+                except Exception as e:
+                    v("supported-operation-raised", site, inp, f"Grid spin {sp}", repr(e))
+                    continue
+                run.gap_case("unary-and-scalar", (name, "out=other", s1, lead), name + "|out=other-grid")
+                if r is not h and not np.shares_memory(r, h):
+                    v("out-not-returned", site, inp, "out", "other array")
+                expect_grid(site, inp, r, sp, want, (g1,))
+                expect_grid(site + "[the out array]", inp, h, sp, want, (g1,))
+                if g1.spin_weight != s1:
+                    v("operand-spin-weight-changed", site, inp, s1, g1.spin_weight)
             # sqrt: even weights only
             try:
                 r = np.sqrt(g1)
